@@ -682,6 +682,11 @@ Definition hspec (st : spec_store) (o : hop) : option (spec_store * hout) :=
 
 End Server.
 
+(** stringutil.MakePathPrefixer: the configured base path, slashes trimmed, as segments
+    (a base path with an empty inner segment, "a//b", registers routes no clean path can reach
+    and is outside the model). *)
+Definition base_of_config (s : str) : list str := filter seg_ok (split_on slash s).
+
 (** Path of a structured request, as the drivers assemble it:
     tmpl 0 /api/v1/mailbox/N   1 /api/v1/mailbox/N/I   2 /api/v1/mailbox/N/I/source
          3 /serve/mailbox/N/I  4 .../html  5 .../source  6 .../attach/NUM/FILE
